@@ -40,6 +40,16 @@ pub fn write_batch(path: &std::path::Path, inputs: &[&[u8]]) -> std::io::Result<
     std::fs::write(path, buf)
 }
 
+struct ProgPtr(*mut u64);
+// SAFETY: the pointer targets a process-lifetime shared mapping; only the decode thread writes it.
+unsafe impl Send for ProgPtr {}
+impl ProgPtr {
+    fn set(&self, v: u64) {
+        // SAFETY: points into an 8-byte MAP_SHARED mapping that lives as long as the process.
+        unsafe { std::ptr::write_volatile(self.0, v) }
+    }
+}
+
 fn raw_write(fd: i32, s: &str) {
     // SAFETY: write(2) on an fd we opened.
     unsafe {
@@ -78,6 +88,22 @@ pub fn main(args: &Args) -> i32 {
     }
     let from: usize = args.extra.get("from").and_then(|s| s.parse().ok()).unwrap_or(0);
     let skip: std::collections::BTreeSet<usize> = args.extra.get("skip").map(|s| s.split(',').filter_map(|x| x.parse().ok()).collect()).unwrap_or_default();
+    // 8-byte shared progress word next to the result file
+    let ppath = std::ffi::CString::new(format!("{out}.prog")).unwrap_or_default();
+    // SAFETY: open/ftruncate/mmap with checked results.
+    let prog = unsafe {
+        let pfd = libc::open(ppath.as_ptr(), libc::O_RDWR | libc::O_CREAT | libc::O_TRUNC, 0o644);
+        if pfd < 0 || libc::ftruncate(pfd, 8) != 0 {
+            eprintln!("child: cannot create progress file");
+            return 3;
+        }
+        let p = libc::mmap(std::ptr::null_mut(), 8, libc::PROT_READ | libc::PROT_WRITE, libc::MAP_SHARED, pfd, 0);
+        if p == libc::MAP_FAILED {
+            eprintln!("child: cannot map progress file");
+            return 3;
+        }
+        ProgPtr(p.cast::<u64>())
+    };
     let touch = codec.touch;
     let needs_kernel = codec.needs_kernel;
     let handle = std::thread::Builder::new().name("decode".into()).stack_size(STACK).spawn(move || {
@@ -94,10 +120,8 @@ pub fn main(args: &Args) -> i32 {
             if i < from || skip.contains(&i) {
                 continue;
             }
-            // one write(2) per input: the previous call's result line + this call's start marker
-            pending.push_str(&format!("S {i}\n"));
-            raw_write(fd, &pending);
-            pending.clear();
+            // progress word (shared mapping, no syscall): index of the call in flight + 1
+            prog.set(i as u64 + 1);
             let t0 = Instant::now();
             let base = alloc::window_start();
             let res = touch(input);
@@ -108,7 +132,12 @@ pub fn main(args: &Args) -> i32 {
                 Err(l) => ("err", l.replace(' ', "_")),
             };
             pending.push_str(&format!("D {i} {tag} {label} {peak} {us}\n"));
+            if pending.len() > 16 << 10 {
+                raw_write(fd, &pending);
+                pending.clear();
+            }
         }
+        prog.set(0);
         raw_write(fd, &pending);
         raw_write(fd, "END\n");
         0
